@@ -145,3 +145,18 @@ if __name__ == '__main__':
     print(render(t))
     for k in sorted(t['kwstmts']):
         print('//', k, '->', ' '.join(t['kwstmts'][k].split())[:100])
+
+
+def guards(snap, files=('decl.c', 'pp.c')):
+    """{(file, message): sorted list of normalised guard conditions} for every `if (COND) error(loc, "MSG"...)`"""
+    res = {}
+    for fn in files:
+        src = _strip_comments(open(os.path.join(snap, fn), errors='replace').read())
+        for m in re.finditer(r'if\s*\(([^\n]*)\)\s*\n?\s*error\(\s*[^,]+,\s*"((?:\\.|[^"\\])*)"', src):
+            cond = ' '.join(m.group(1).split())
+            res.setdefault((fn, m.group(2)), []).append(cond)
+    return {k: sorted(v) for k, v in res.items()}
+
+
+def norm_stmt(s):
+    return ' '.join(s.split())
